@@ -45,6 +45,9 @@ def gen_value(rng, depth=0):
         return [gen_value(rng, depth + 1) for _ in range(rng.randrange(4))]
     if r < 0.88:
         return {"__tuple__": [gen_value(rng, depth + 1) for _ in range(rng.randrange(4))]}
+    if rng.random() < 0.3:
+        # a mapping whose only key is a name that coba.json knows as a registered type tag
+        return {rng.choice(["L1", "BR", "HR", "DR", "zip", "__tuple"]): gen_scalar(rng)}
     return {f"k{i}": gen_value(rng, depth + 1) for i in range(rng.randrange(3))}
 
 
@@ -52,7 +55,7 @@ def gen_key(rng, used):
     for _ in range(20):
         k = weighted(rng, [("str", 8), ("int", 1), ("float", 1), ("none", 0.3), ("eqint", 0.6)])
         if k == "str":
-            key = rng.choice(["reward", "action", "probability", "a", "b", "c", "x y", "ké", "rewards", "z", "Z", "0"])
+            key = rng.choice(["reward", "action", "probability", "a", "b", "c", "x y", "ké", "rewards", "z", "Z", "0", "L1", "BR", "zip"])
         elif k == "int":
             key = rng.randrange(1, 5)
         elif k == "float":
@@ -164,13 +167,15 @@ class C07:
         homogeneous = rng.random() < 0.5
         n_env, n_lrn = 1 + rng.randrange(2), 1 + rng.randrange(2)
         envs = [{"src": ["tagged", {"tag": f"T{i}", "n": 2, "n_actions": 2}],
-                 "ops": ([["params", {"params": gen_params(rng)}]] if rng.random() < 0.5 else [])} for i in range(n_env)]
+                 "ops": ([["params", {"params": gen_params(rng)}]] if rng.random() < 0.5 else [])
+                        # (a chunked environment keeps all its tasks - and one copy of their evaluator - together on one worker)
+                        + ([["chunk", {"cache": rng.random() < 0.5}]] if rng.random() < 0.4 else [])} for i in range(n_env)]
         lrns = [["plearner", {"tag": f"l{i}", "params": gen_params(rng)}] for i in range(n_lrn)]
         rows_by = {}
         for i in range(n_env):
             for j in range(n_lrn):
                 rows_by[f"T{i}/l{j}"] = gen_rows(rng, homogeneous)
-        vals = [["rows", {"rows_by_env": rows_by, "params": gen_params(rng), "tag": "rv"}]]
+        vals = [["rows", {"rows_by_env": rows_by, "params": gen_params(rng), "tag": "rv", "reuse_list": rng.random() < 0.3}]]
         if rng.random() < 0.3:
             vals.append(["tap", {"inner": ["seqcb", {"record": ["reward", "action", "probability", "context", "actions", "rewards"]}], "tag": "tap"}])
         spec = {"envs": envs, "learners": lrns, "evaluators": vals, "shape": "product", "seed": 1, "quiet": True,
